@@ -288,11 +288,13 @@ def run_check(check, tier, seed, workers=None, budget=None, out=sys.stdout):
         pool = ctx.Pool(workers, initializer=_worker_init)
         hang = False
         worker_pids = sorted(p.pid for p in pool._pool)
+        # units take seconds (quick) to a few minutes (thorough) on an idle machine; the limit leaves room for a loaded one
+        unit_timeout = UNIT_TIMEOUT if ('MC_UNIT_TIMEOUT' in os.environ or tier == 'quick') else 4 * UNIT_TIMEOUT
         try:
             it = pool.imap_unordered(_run_unit, units, chunksize=1)
             while done_units < len(units):
                 try:
-                    res = it.next(timeout=UNIT_TIMEOUT)
+                    res = it.next(timeout=unit_timeout)
                 except multiprocessing.TimeoutError:
                     if sorted(p.pid for p in pool._pool) != worker_pids or any(p.exitcode is not None for p in pool._pool):
                         # a worker process died (killed by the system, out of memory ...): its unit is lost, which is not an
@@ -317,7 +319,7 @@ def run_check(check, tier, seed, workers=None, budget=None, out=sys.stdout):
             agg.nviol += 1
             agg.violations.append({'signature': '%s|execution-does-not-terminate' % check.ID, 'size': 0,
                                    'case': {'hang': True, 'units_done': done_units, 'units': len(units)},
-                                   'detail': {'note': 'no unit completed within %d s' % UNIT_TIMEOUT}})
+                                   'detail': {'note': 'no unit completed within %d s' % unit_timeout}})
     wall = time.time() - t0
 
     if agg.harness_errors and not agg.violations:
